@@ -42,7 +42,7 @@ type c14Vals struct {
 	S    string `json:"string"`
 	B    []byte `json:"bytes"`
 	BNil bool   `json:"bytes_nil"`
-	Err  string `json:"error_kind"` // "nil", "errors.New", "struct", "pointer", "empty-struct", "zero-int", "empty-string-kind"
+	Err  string `json:"error_kind"` // "nil", "errors.New", "struct", "pointer", "empty-struct", "zero-int", "empty-string-kind", "percent", "percent-verbs"
 	Code int    `json:"status"`
 	PNil bool   `json:"pointer_nil"`
 }
@@ -72,6 +72,10 @@ func (w *c14World) err() error {
 		return c14Errno(0)
 	case "empty-string-kind":
 		return c14StrErr("")
+	case "percent": // messages that a printf-style writer would mangle
+		return errors.New("disk is 100% full")
+	case "percent-verbs":
+		return c14ValErr{"%s %d %v %% %!x(MISSING) \x00\n"}
 	}
 	return nil
 }
@@ -351,7 +355,7 @@ func c14Values(shape string, thorough bool) []c14Vals {
 	for b := 0; b < 256; b++ {
 		strs = append(strs, string([]byte{byte(b)}))
 	}
-	errs := []string{"nil", "errors.New", "struct", "pointer", "empty-struct", "zero-int", "empty-string-kind"}
+	errs := []string{"nil", "errors.New", "struct", "pointer", "empty-struct", "zero-int", "empty-string-kind", "percent", "percent-verbs"}
 	codes := []int{200}
 	hasInt := strings.HasPrefix(shape, "(int")
 	if hasInt {
@@ -412,7 +416,7 @@ func c14Run(r *core.Run) {
 	if r.Thorough() {
 		r.SetBudget(10 * time.Minute)
 	}
-	r.Rule = "engine E: every supported return shape x every value (empty, nil, all 256 single bytes, 1 KiB, every status 100..999, nil / errors.New / struct / pointer-receiver errors, nil pointers) x position {first of two handlers, last before the action, application middleware} x {default table, custom ReturnHandler at application scope, at request scope, mapped late}; all values served in sequence on one instance, plus every two-request history (one value of each outcome class, then every value) on a fresh instance; oracle = the statement's table, 'wrote nothing' observed as 'the next handler ran'; non-trivial = value that is nil/empty/zero, an error, or a non-200 status"
+	r.Rule = "engine E: every supported return shape x every value (empty, nil, all 256 single bytes, 1 KiB, every status 100..999, nil / errors.New / struct / pointer-receiver errors, messages with percent signs and verbs, nil pointers) x position {first of two handlers, last before the action, application middleware} x {default table, custom ReturnHandler at application scope, at request scope, mapped late}; all values served in sequence on one instance, plus every two-request history (one value of each outcome class, then every value) on a fresh instance; oracle = the statement's table, 'wrote nothing' observed as 'the next handler ran'; non-trivial = value that is nil/empty/zero, an error, or a non-200 status"
 	r.Assumptions = []string{"a non-nil pointer to an empty value is not covered by the statement and is asserted neither way (counted)", "status codes outside 100..999 (what net/http accepts) are outside the quantifier"}
 	positions := []string{"first-of-two", "last", "middleware"}
 	customs := []string{"", "app", "request", "request-late", "app-late"}
